@@ -2,6 +2,7 @@ import Driver.Util
 import Driver.Conc
 import Driver.Mgr
 import Driver.Session
+import Driver.Node
 import Driver.FD
 import Driver.Codec
 import Driver.Gossip
@@ -9,6 +10,7 @@ import Driver.Rebalance
 import Driver.Syncer
 import Driver.WS
 import Driver.Auth
+import Driver.Route
 /-!
 # Model driver: one op per input line → one canonical output line.
 `driver <engine> < ops`.  Lines starting with `#` and blank lines are skipped; `case <name>`
@@ -18,8 +20,10 @@ open Piko.Driver
 
 def engines : List (String × Engine) :=
   [("mgr", MgrEngine.engine),
+   ("route", RouteEngine.engine),
    ("conc", ConcEngine.engine),
    ("session", SessionEngine.engine),
+   ("node", NodeEngine.engine),
    ("auth", AuthEngine.engine),
    ("fd", FDEngine.engine),
    ("rebalance", RebalanceEngine.engine),
